@@ -15,6 +15,8 @@
 (*   sig      when the child received the interrupt                        *)
 (*   selfexit when the child left on its own (it got that far)             *)
 (*   last     last moment the child is known to have been alive            *)
+(*   after    > 0: the script ran behind another one that ended then;      *)
+(*   start    first sign of life of the child                              *)
 (*   done     when the script's subtest finished; rundone: RunT + all      *)
 (*            subtests finished; hung: they did not finish at all          *)
 (*   verdict  "pass" | "fail" | "skip";  msg  "none" | "timedout" |        *)
@@ -68,12 +70,17 @@ MustBeKilled(o) == /\ Blocked(o) /\ o.onint = "ignore" /\ o.sig # Never
 \* the child was in fact force-killed: it ignores the interrupt, got it, never reached its own exit
 WasKilled(o) == o.onint = "ignore" /\ o.sig # Never /\ o.selfexit = Never /\ ~o.hung
 
+\* a script that only started when the interrupt was already due (it ran behind another script of the same RunT call):
+\* its command is interrupted as soon as it is started - possibly before it can notice - and everything else counts
+\* from its start (start = first sign of life of the child, -1 = none)
+LateStarter(o) == o.after # 0 /\ o.start # Never /\ o.start >= IntTime(o.D)
+
 \* ---- laws a slow machine cannot break (load only delays things) ----
 HFinished(o)          == ~o.hung
 \* never interrupted before two grace periods before the deadline
 HNotEarlyInt(o)       == o.sig # Never => o.sig + Delta >= IntTime(o.D)
 \* a blocked command that did not leave on its own was interrupted (it was not just killed, or left alone)
-HInterruptedIfBlocked(o) == Blocked(o) /\ ~o.hung /\ o.selfexit = Never => o.sig # Never
+HInterruptedIfBlocked(o) == Blocked(o) /\ ~o.hung /\ o.selfexit = Never /\ ~LateStarter(o) => o.sig # Never
 \* blocked: failed, with a timed-out message - also for `! exec`, also when the child then leaves during the grace period
 HVerdictBlocked(o)    == Blocked(o) /\ ~o.hung /\ (o.selfexit = Never \/ o.sig # Never) => Reported(o) = TimedOut
 \* finished earlier: never signalled, own verdict.  (Only a subtest that was itself still busy reporting when the
@@ -91,11 +98,18 @@ HNotEarlyTimeout(o)   == ~o.hung /\ o.msg = "timedout" => o.done + Delta >= IntT
 
 \* ---- laws that bound a delay by the slack (load sensitive) ----
 \* interrupted two grace periods before the deadline
-SIntOnTime(o)         == Blocked(o) /\ ~o.hung => o.sig # Never /\ o.sig <= IntTime(o.D) + o.s
+SIntOnTime(o)         == Blocked(o) /\ ~o.hung /\ ~LateStarter(o) => o.sig # Never /\ o.sig <= IntTime(o.D) + o.s
 \* force-killed one grace period later if it ignores the interrupt ...
 SKillOnTime(o)        == MustBeKilled(o) /\ ~o.hung => o.selfexit = Never /\ o.last <= o.sig + Grace(o.D) + o.s
 \* ... and not before (last = last sign of life; the child may have been starved for a few jit before the kill)
 SKillNotBeforeGrace(o) == WasKilled(o) => o.last + Delta + 3 * o.jit >= o.sig + Grace(o.D)
+\* a late starter that ignores the interrupt is force-killed one grace period after it started: not before (its first sign
+\* of life comes a little after the start: StartLag), not much later
+StartLag == 3 * Delta
+SLateKillNotBeforeGrace(o) == LateStarter(o) /\ o.onint = "ignore" /\ o.x = Never /\ ~o.hung =>
+                                 o.last + Delta + StartLag + 3 * o.jit >= o.start + Grace(o.D)
+SLateKillOnTime(o)    == LateStarter(o) /\ o.onint = "ignore" /\ o.x = Never /\ ~o.hung =>
+                            o.selfexit = Never /\ o.last <= o.start + Grace(o.D) + o.s
 \* RunT and all its subtests finish by the deadline
 SDoneByDeadline(o)    == ~o.hung => o.done <= o.D + o.s /\ o.rundone <= o.D + o.srun
 \* scripts that finish earlier are not held back
@@ -104,4 +118,5 @@ SEarlyUndelayed(o)    == Early(o) /\ ~o.hung => o.done <= o.selfexit + o.s
 AllLaws(o) == /\ HFinished(o) /\ HNotEarlyInt(o) /\ HInterruptedIfBlocked(o) /\ HVerdictBlocked(o)
               /\ HVerdictEarly(o) /\ HVerdictBoundary(o) /\ HNoChildLeft(o) /\ HNotEarlyTimeout(o)
               /\ SIntOnTime(o) /\ SKillOnTime(o) /\ SKillNotBeforeGrace(o) /\ SDoneByDeadline(o) /\ SEarlyUndelayed(o)
+              /\ SLateKillNotBeforeGrace(o) /\ SLateKillOnTime(o)
 =============================================================================
